@@ -8,7 +8,7 @@ Go `string` ↦ `Bytes = List Nat` (every element < 256; a `py.String` normally 
 valid UTF-8 – the invariant `Valid` of Proofs.lean), Go `rune` ↦ `Nat`.
 `unicode/utf8` (EncodeRune, DecodeRuneInString, RuneCountInString, `range s`,
 `[]rune(s)`), `strings` (Index, Count, Replace, SplitN, HasPrefix/HasSuffix,
-Trim*Func, Join) and `strconv.ParseInt` are external Go functions: they are
+Trim*Func, Join) and `strconv.ParseUint` are external Go functions: they are
 modelled here by their documented byte-level definitions (trusted; exercised by
 every correspondence run).  `strconv.IsPrint` is a *parameter* `isPrint`.
 -/
@@ -167,7 +167,7 @@ def ltBytes : Bytes → Bytes → Bool
 /-! ### py/string.go -/
 
 inductive Err where
-  | type | value | overflow | attr | syntax
+  | type | value | overflow | attr | syntax | index
 deriving DecidableEq, Repr, Inhabited
 
 /-- an argument position that takes an optional integer: absent, `None`, or an int (of any size) -/
@@ -350,6 +350,39 @@ def strCmp (op : Nat) (a b : Bytes) : Bool :=
 /-- `py.Iterate` over a String: one string per rune -/
 def strIter (s : Bytes) : List Bytes := (runes s).map encodeRune
 
+/-- `IndexIntCheck` + `String.M__getitem__` with an int key that fits int64: the ASCII fast path slices one
+byte, the general path decodes one rune at `pos(i)` -/
+def strGetItem (s : Bytes) (i : Int) : Res :=
+  let length : Int := strLen s
+  let i := if i < 0 then i + length else i
+  if i < 0 ∨ i ≥ length then .err .index
+  else if length = (s.length : Int) then
+    match goSlice s i (i + 1) with
+    | some b => .ok (.str b)
+    | none => .panic
+  else
+    let t := s.drop (pos s i)
+    .ok (.str (t.take (decodeRune t).2))
+
+/-- one bound of `Slice.GetIndices` for step = 1: `sliceIndex` saturates a big int, a negative bound counts
+from the end, the result is clipped to 0..length -/
+def sliceBound (a : Arg) (dflt length : Int) : Int :=
+  match a with
+  | .absent => dflt
+  | .none => dflt
+  | .int v =>
+    let v := if v < IntMin then IntMin else if v > IntMax then IntMax else v
+    let v := if v < 0 then v + length else v
+    let v := if v < 0 then 0 else v
+    if v ≥ length then length else v
+
+/-- `String.M__getitem__` with a slice key `[a:b]` (step None, i.e. 1): `s.slice(start, stop, length)` -/
+def strGetSlice (s : Bytes) (a b : Arg) : Res :=
+  let length : Int := strLen s
+  match slice s (sliceBound a 0 length) (sliceBound b length length) length with
+  | some r => .ok (.str r)
+  | none => .panic
+
 /-! ### stdlib/builtin/builtin.go -/
 
 /-- `builtin_chr` -/
@@ -435,26 +468,26 @@ def parseHexDigits : List Nat → Nat → Option Nat
     | some d => parseHexDigits t (acc * 16 + d)
     | none => none
 
-/-- `strconv.ParseInt(s, 16, 32)`: optional sign, at least one digit, value in int32 -/
-def parseInt16 (ds : List Nat) : Option Int :=
-  match ds with
+/-- `strconv.ParseUint(s, 16, 32)` on the BYTES of `s` (`string(runes[i:i+size])` is the UTF-8 text
+of the runes): the empty string is a syntax error; every byte must be `0-9`, `a-f` or `A-F`
+(`lower(c) = c | 0x20` maps only `A-Z` onto `a-z`, and a letter beyond `f` is a digit ≥ base) – no
+sign, no underscore and no `0x` prefix because the base is given explicitly; a byte ≥ 0x80 (any part
+of a non-ASCII rune) is not a digit.  A value above 2^32-1 is a range error: with the at most 8
+digits `decodeHex` passes this cannot happen (16^8 - 1 = 2^32 - 1), it is modelled all the same.
+`none` = `err != nil`. -/
+def parseUint16 (s : List Nat) : Option Nat :=
+  match s with
   | [] => none
-  | 43 :: t => if t.isEmpty then none else
-      match parseHexDigits t 0 with
-      | some v => if v ≤ 2147483647 then some (v : Int) else none
-      | none => none
-  | 45 :: t => if t.isEmpty then none else
-      match parseHexDigits t 0 with
-      | some v => if v ≤ 2147483648 then some (-(v : Int)) else none
-      | none => none
-  | _ => match parseHexDigits ds 0 with
-      | some v => if v ≤ 2147483647 then some (v : Int) else none
-      | none => none
+  | _ :: _ =>
+    match parseHexDigits s 0 with
+    | some v => if v ≤ 4294967295 then some v else none
+    | none => none
 
-/-- `out.WriteRune(rune(cout))` / `out.WriteByte(byte(cout))` -/
-def writeCode (byteMode : Bool) (v : Int) : Bytes :=
-  if byteMode then [(v % 256).toNat]
-  else if v < 0 then encodeRune runeError else encodeRune v.toNat
+/-- `out.WriteRune(rune(cout))` / `out.WriteByte(byte(cout))`: `cout` is a `uint64` ≤ unicode.MaxRune
+in `decodeHex` and a non-negative `rune` ≤ 0o777 in the octal case, so both conversions are exact
+except `byte(cout)` = `cout mod 256`; `WriteRune` of a surrogate writes U+FFFD (`encodeRune`). -/
+def writeCode (byteMode : Bool) (v : Nat) : Bytes :=
+  if byteMode then [v % 256] else encodeRune v
 
 def isOct (c : Nat) : Bool := 48 ≤ c ∧ c ≤ 55
 
@@ -469,12 +502,14 @@ def decodeAux (byteMode : Bool) : Nat → List Nat → Bytes → Except Err Byte
       | e :: rest' =>
         let simple (r : Nat) := decodeAux byteMode f rest' (out ++ encodeRune r)
         let ignore := decodeAux byteMode f rest (out ++ [92])   -- i--; write '\\'; the character is re-read
-        let hex (size : Nat) :=
+        let hex (size : Nat) :=                                  -- decodeHex(what, i, size); i += size
           if size ≤ rest'.length then
-            match parseInt16 (rest'.take size) with
-            | some v => decodeAux byteMode f (rest'.drop size) (out ++ writeCode byteMode v)
-            | none => .error .value
-          else .error .value
+            match parseUint16 (encodeAll (rest'.take size)) with
+            | some v =>
+              if v > 0x10FFFF then .error .value      -- illegal Unicode character (cout > unicode.MaxRune)
+              else decodeAux byteMode f (rest'.drop size) (out ++ writeCode byteMode v)
+            | none => .error .value                   -- invalid \x escape
+          else .error .value                          -- truncated \x escape
         if e = 10 then decodeAux byteMode f rest' out
         else if e = 92 then simple 92
         else if e = 39 then simple 39
@@ -493,11 +528,11 @@ def decodeAux (byteMode : Bool) : Nat → List Nat → Bytes → Except Err Byte
               match r1 with
               | d2 :: r2 =>
                 if isOct d2 then
-                  decodeAux byteMode f r2 (out ++ writeCode byteMode (((e - 48) * 8 + (d1 - 48)) * 8 + (d2 - 48) : Nat))
-                else decodeAux byteMode f r1 (out ++ writeCode byteMode ((e - 48) * 8 + (d1 - 48) : Nat))
-              | [] => decodeAux byteMode f r1 (out ++ writeCode byteMode ((e - 48) * 8 + (d1 - 48) : Nat))
-            else decodeAux byteMode f rest' (out ++ writeCode byteMode (e - 48 : Nat))
-          | [] => decodeAux byteMode f rest' (out ++ writeCode byteMode (e - 48 : Nat))
+                  decodeAux byteMode f r2 (out ++ writeCode byteMode (((e - 48) * 8 + (d1 - 48)) * 8 + (d2 - 48)))
+                else decodeAux byteMode f r1 (out ++ writeCode byteMode ((e - 48) * 8 + (d1 - 48)))
+              | [] => decodeAux byteMode f r1 (out ++ writeCode byteMode ((e - 48) * 8 + (d1 - 48)))
+            else decodeAux byteMode f rest' (out ++ writeCode byteMode (e - 48))
+          | [] => decodeAux byteMode f rest' (out ++ writeCode byteMode (e - 48))
         else if e = 120 then hex 2
         else if e = 117 then (if byteMode then ignore else hex 4)
         else if e = 85 then (if byteMode then ignore else hex 8)
@@ -519,13 +554,14 @@ deriving DecidableEq, Repr, Inhabited
 
 inductive LexRes where
   | notString                       -- `return eof, nil`: some other matcher's turn
-  | error                           -- SyntaxError (EOL while scanning, decode error)
+  | error                           -- SyntaxError (EOL while scanning, non-ASCII byte in a bytes literal, decode error)
   | multiline                       -- triple-quoted / continuation line: outside this model
   | ok (v : Lit) (rest : List Nat)
 deriving DecidableEq, Repr, Inhabited
 
 /-- the scanning loop for a single-quoted form: `none` = EOL before the closing quote,
-`some (none)` = backslash-newline continuation (not modelled) -/
+`some (none)` = backslash-newline continuation (the literal goes on on the next line, raw or not:
+not modelled) -/
 def scan (q : Nat) : List Nat → Bool → List Nat → Option (Option (List Nat × List Nat))
   | [], _, _ => none
   | c :: t, true, buf => if c = 10 then some none else scan q t false (buf ++ [c])
@@ -570,6 +606,8 @@ def readString (line : List Nat) : LexRes :=
       | some none => .multiline
       | some (some (buf, rest)) =>
         let bufBytes := encodeAll buf
+        -- "bytes can only contain ASCII literal characters." – before DecodeEscape, raw or not
+        if byteString && bufBytes.any (fun b => decide (b ≥ 0x80)) then .error else
         let decoded := if raw then .ok bufBytes else decodeEscape bufBytes byteString
         match decoded with
         | .error _ => .error
